@@ -60,9 +60,10 @@ def main(claimed):
             na.append({"property_id": pid, "reason": "engine designed (DESIGN.md section 5) but not yet registered: it is not yet shown deterministic, sensitive and quiet on the unchanged tree"})
     m = {
         "version": 1,
-        "setup_cmd": "make -s -f sim/Makefile -j16",
-        "hooks": {"guard": "NAKEN_ASM_VERIF", "enable": "none needed: every seam is intercepted at link time (-Wl,--wrap, -Dmain=..., shadow readline headers); sim/Makefile passes -DNAKEN_ASM_VERIF for future hooks",
-                  "baseline_off_cmd": "cd /repo && ./configure && make && make tests", "source_commits": [], "add_only": True},
+        "setup_cmd": "make -s -f sim/Makefile -j16 && make -s -f sim/Makefile -j16 V=small",
+        "hooks": {"guard": "NAKEN_ASM_VERIF",
+                  "enable": "sim/Makefile passes -DNAKEN_ASM_VERIF to every /repo source; the 'small' build variant (make -f sim/Makefile V=small) additionally passes -DNAKEN_ASM_VERIF_PAGE_SIZE=256 -DNAKEN_ASM_VERIF_SYMBOLS_HEAP_SIZE=1024 -DNAKEN_ASM_VERIF_MACROS_HEAP_SIZE=4096 (hook H1: build-time knobs in core/MemoryPage.h, core/Symbols.h, core/Macros.h). All other seams are intercepted at link time (-Wl,--wrap, -Dmain=..., shadow readline headers).",
+                  "baseline_off_cmd": "cd /repo && ./configure && make && make tests", "source_commits": ["14c4d8b"], "add_only": True},
         "engines": [{"name": "dst-" + p.lower(), "path": "engines/%s.py" % p.lower(), "serves_properties": [p],
                      "kind_free_text": "deterministic simulation: Python planner/oracle + C++ executor (sim/executor.cpp) linked with /repo's objects"} for p in claimed],
         "checks": checks,
